@@ -286,6 +286,30 @@ func runC08(res *lib.Result, tier string, seed int64, args []string) error {
 					continue
 				}
 				open[n], buffer[n] = true, disk[n]
+				if ov := []int{0, 1, 2, 3, 4, 6, 7}[r.Intn(7)]; e >= len(script) && !cleanMode && forceV < 0 && c08Variant(i, ov) != c08Variant(i, disk[n]) && r.Chance(1, 4) {
+					// the client's text is not the file's (a buffer restored with unsaved edits): an open and an edit in one
+					buffer[n] = ov
+					dirty[n] = true
+					sawDirty = true
+					sess.DidOpen(n, c08Variant(i, ov))
+					sess.Sync()
+					saved, change := langserver.VerifDiagMaps()
+					var es []string
+					for f, l := range change {
+						if sess.Rel(f) == n {
+							for _, x := range l {
+								es = append(es, tok(x))
+							}
+						}
+					}
+					enc := "-"
+					if len(es) > 0 {
+						enc = strings.Join(es, ",")
+					}
+					history = append(history, fmt.Sprintf("didOpen %s with the text of variant %d (the file holds variant %d)", n, ov, disk[n]))
+					evs = append(evs, "OE~"+n+"~"+encMap(saved)+"~"+enc)
+					break
+				}
 				sess.DidOpen(n, c08Variant(i, disk[n]))
 				sess.Sync()
 				saved, _ := langserver.VerifDiagMaps()
